@@ -532,8 +532,9 @@ func c05BaseGraph(name string) *Graph {
 	switch name {
 	case "mixed":
 		g := &Graph{}
-		g.Add(nid(0), EX+"T").P(EX+"p1", "v").P(EX+"p2", "a").P(EX+"name", "zero")
-		g.Add(nid(1), EX+"T").P(EX+"p2", "a", "z").P(EX+"name", "one")
+		// local names that equal well-known AMF prefix names (security, data, doc, core): no prefix table may capture them
+		g.Add(nid(0), EX+"T").P(EX+"p1", "v").P(EX+"p2", "a").P(EX+"name", "zero").P(EX+"security", "s").P(EX+"data", "d").P(EX+"doc", Ref(EX+"c0"))
+		g.Add(nid(1), EX+"T").P(EX+"p2", "a", "z").P(EX+"name", "one").P(EX+"core", "k").P(EX+"shapes", "x", "y")
 		g.Add(nid(2), EX+"T", EX+"U").P(EX+"p1", "v", "w").P(EX+"c", Ref(EX+"c0"), Ref(EX+"c1"))
 		g.Add(nid(3), EX+"T").P(EX+"c", Ref(EX+"c0")).P(EX+"p2", 3, true)
 		g.Add(EX+"c0", EX+"C").P(EX+"p4", "x")
@@ -565,7 +566,7 @@ func c05Profile() string {
 		return m
 	}
 	return EmitYAML(M("profile", "c05", "prefixes", M("ex", EX),
-		"violation", strs("count", "set", "nested", "path", "type"),
+		"violation", strs("count", "set", "nested", "path", "type", "reserved"),
 		"warning", strs("inverse", "msg"),
 		"validations", M(
 			"count", v("count", "ex.T", M("propertyConstraints", M("ex.p1", M("minCount", 1, "maxCount", 1)))),
@@ -575,6 +576,7 @@ func c05Profile() string {
 			"msg", v(YQ("name={{ex.name}} p1={{ex.p1}}"), "ex.T", con("ex.name", M("minLength", 4))),
 			"path", v("path", "ex.T", con("ex.p / ex.q^ | ex.q", M("in", strs("__none__")))),
 			"type", v("type", "ex.T", con("@type", M("in", strs(EX+"T")))),
+			"reserved", v("reserved", "ex.T", M("propertyConstraints", M("ex.security", M("minCount", 1), "ex.data", M("in", strs("d")), "ex.core", M("maxCount", 0), "ex.shapes", M("maxCount", 1), "ex.doc / ex.p4", M("minCount", 1)))),
 		)))
 }
 
